@@ -498,3 +498,178 @@ Proof.
     + eexists. split; [vm_compute; reflexivity|]. split; vm_compute; reflexivity.
 Qed.
 
+
+(* ---------- a selecting object and a workload through the same chain ---------- *)
+Section Pair.
+  Variable nonstr : string -> bool.
+
+  (* what is carried along for the pair (s, w) *)
+  Definition pinv (sp tp : string) (s w : node) : Prop :=
+    sel_path_of s = Some sp /\ tmpl_path_of w = Some tp /\
+    is_map w = true /\ no_seq_along (path_splitter tp) w = true /\
+    has_exact (path_splitter sp) gen_common_labels_fs s = true /\
+    has_create (path_splitter tp) gen_common_labels_fs w = true /\
+    selects s w.
+
+  Lemma pod_of_path w tp : tmpl_path_of w = Some tp -> pod_labels_of w = labels_at (path_splitter tp) w.
+  Proof. intros H. unfold pod_labels_of. rewrite H. reflexivity. Qed.
+
+  (* the shape part of the invariant survives any run whose table is well-formed for both objects *)
+  Lemma pinv_shape sp tp fss (L : pairs) s w s' w' :
+    rows_okP (path_splitter sp) fss s -> rows_okP (path_splitter tp) fss w ->
+    pinv sp tp s w ->
+    label_filter nonstr L fss s = Ok s' -> label_filter nonstr L fss w = Ok w' ->
+    selects s' w' -> pinv sp tp s' w'.
+  Proof.
+    intros Ws Ww (Hsp & Htp & Hm & Hn & Hex & Hcr & _) Hs Hw Hsel.
+    pose proof (keys_gvk_same nonstr _ _ _ _ _ Ws Hs) as Hgs.
+    destruct (keys_shape nonstr _ _ _ _ _ Ww Hw) as (Hm' & Hn' & Hgw).
+    repeat split; auto.
+    - rewrite (gvk_same_sel_path _ _ Hgs); exact Hsp.
+    - rewrite (gvk_same_tmpl_path _ _ Hgw); exact Htp.
+    - rewrite (has_exact_same _ _ _ _ Hgs); exact Hex.
+    - rewrite (has_create_same _ _ _ _ Hgw); exact Hcr.
+  Qed.
+
+  Lemma pair_selector sp tp (L : pairs) s w s' w' :
+    pinv sp tp s w ->
+    label_filter nonstr L gen_common_labels_fs s = Ok s' -> label_filter nonstr L gen_common_labels_fs w = Ok w' ->
+    pinv sp tp s' w' /\ ev L (sel_of s) (sel_of s').
+  Proof.
+    intros Hp Hs Hw. pose proof Hp as (Hsp & Htp & Hm & Hn & Hex & Hcr & Hsel).
+    split.
+    - apply (pinv_shape sp tp gen_common_labels_fs L s w s' w'); auto.
+      + apply wf_common_sel; auto.
+      + apply wf_common_tmpl; auto.
+      + apply (selects_preserved_default nonstr L s w s' w' sp tp Hsp Htp Hm Hn Hcr); auto.
+        intros Hno. rewrite Hex in Hno. discriminate.
+    - apply (selrun_selector nonstr L s s' sp Hsp Hs).
+  Qed.
+
+  Lemma pair_nonselector sp tp (p : pairs) (t : bool) fss s w s' w' :
+    label_fs default_tc (mkLD p false t []) = Ok fss ->
+    pinv sp tp s w -> (forall kv, In kv p -> compat (fst kv) (snd kv) (sel_of s)) ->
+    label_filter nonstr p fss s = Ok s' -> label_filter nonstr p fss w = Ok w' ->
+    pinv sp tp s' w' /\ sel_of s' = sel_of s.
+  Proof.
+    intros Hfs Hp Hc Hs Hw. pose proof Hp as (Hsp & Htp & Hm & Hn & Hex & Hcr & Hsel).
+    pose proof Hfs as Hfs0. rewrite label_fs_no_fields in Hfs0.
+    destruct (entry_no_sel _ _ _ _ Hfs0 Hsp) as [Ws Hno].
+    pose proof (wf_entry_tmpl _ _ _ _ Hfs0 Htp) as Ww.
+    destruct (selrun_nonselector nonstr p t fss s s' sp Hfs Hsp Hs) as [Hsp' Es].
+    split; [|exact Es].
+    apply (pinv_shape sp tp fss p s w s' w'); auto.
+    pose proof (keys_gvk_same nonstr _ _ _ _ _ Ws Hs) as Hgs.
+    destruct (keys_shape nonstr _ _ _ _ _ Ww Hw) as (_ & _ & Hgw).
+    unfold selects in *. rewrite (sel_of_path _ _ Hsp'), (pod_of_path w' tp) by (rewrite (gvk_same_tmpl_path _ _ Hgw); exact Htp).
+    rewrite (sel_of_path _ _ Hsp), (pod_of_path _ _ Htp) in Hsel.
+    eapply (selects_preserved_generic nonstr (path_splitter sp) (path_splitter tp) fss (sort_pairs p) s w s' w'); eauto.
+    - intros Hyes. rewrite Hno in Hyes. discriminate.
+    - intros _. right. intros kv Hin. rewrite <- (sel_of_path _ _ Hsp). apply Hc. apply sort_pairs_in; exact Hin.
+  Qed.
+
+  Lemma pair_annotations sp tp (L : pairs) s w s' w' :
+    pinv sp tp s w ->
+    label_filter nonstr L gen_common_annotations_fs s = Ok s' -> label_filter nonstr L gen_common_annotations_fs w = Ok w' ->
+    pinv sp tp s' w' /\ sel_of s' = sel_of s.
+  Proof.
+    intros Hp Hs Hw. pose proof Hp as (Hsp & Htp & Hm & Hn & Hex & Hcr & Hsel).
+    destruct (selrun_annotations nonstr L s s' sp Hsp Hs) as [Hsp' Es].
+    split; [|exact Es].
+    pose proof gen_rows_wf as W. cbn [forallb entry_tables] in W.
+    apply andb_true_iff in W as [_ W]. apply andb_true_iff in W as [_ W]. apply andb_true_iff in W as [_ W].
+    apply andb_true_iff in W as [W _]. unfold chk_rows_wf in W. apply andb_true_iff in W as [W1 W2].
+    rewrite forallb_forall in W1, W2.
+    pose proof (rows_wf_sound _ _ _ s (W1 _ (sel_path_of_in _ _ Hsp)) eq_refl) as Ws.
+    pose proof (rows_wf_sound _ _ _ w (W2 _ (tmpl_path_of_in _ _ Htp)) eq_refl) as Ww.
+    pose proof gen_annotations_clear as G. unfold chk_annotations_clear in G. apply andb_true_iff in G as [_ G2].
+    rewrite forallb_forall in G2.
+    pose proof (no_rows_at_sound _ _ _ w (G2 _ (tmpl_path_of_in _ _ Htp)) eq_refl) as Ntp.
+    cbn [fst snd] in *.
+    destruct (keys_frame nonstr _ _ _ _ _ Ww Ntp Hw) as [Et Hgw].
+    apply (pinv_shape sp tp gen_common_annotations_fs L s w s' w'); auto.
+    unfold selects. rewrite Es, (pod_of_path w' tp) by (rewrite (gvk_same_tmpl_path _ _ Hgw); exact Htp).
+    unfold selects in Hsel. rewrite (pod_of_path _ _ Htp) in Hsel. unfold labels_at in *. rewrite Et. exact Hsel.
+  Qed.
+
+  (* the runs of one kustomization, then the chain *)
+  Lemma pair_runs s0 G sp tp : forall lts s w rs rw,
+    Forall (fun pf => lt_sel G pf \/ (lt_nonsel pf /\ good s0 G (fst pf))) lts ->
+    pinv sp tp s w -> ev G s0 (sel_of s) ->
+    run_transformers nonstr lts [s] = Ok rs -> run_transformers nonstr lts [w] = Ok rw ->
+    exists s' w', rs = [s'] /\ rw = [w'] /\ pinv sp tp s' w' /\ ev G s0 (sel_of s').
+  Proof.
+    induction lts as [|[p fss] t IH]; intros s w rs rw Hok Hp Hev Hs Hw; cbn [run_transformers] in Hs, Hw.
+    - inv Hs. inv Hw. exists s; exists w. auto.
+    - inversion Hok as [|? ? Hpf Hok']; subst.
+      destruct (run_label_transformer nonstr p fss [s]) as [rs1| | |] eqn:E1; cbn [bind] in Hs; try discriminate.
+      destruct (run_label_transformer nonstr p fss [w]) as [rw1| | |] eqn:E2; cbn [bind] in Hw; try discriminate.
+      assert (Hstep : exists s1 w1, rs1 = [s1] /\ rw1 = [w1] /\ pinv sp tp s1 w1 /\ ev G s0 (sel_of s1)).
+      { destruct (run_single nonstr _ _ _ _ E1) as [[Hp0 ->]|(s1 & -> & Hf1)].
+        - subst p. cbn in E2. inv E2. do 2 eexists. split; [reflexivity|]. split; [reflexivity|]. auto.
+        - destruct (run_single nonstr _ _ _ _ E2) as [[Hp0 _]|(w1 & -> & Hf2)];
+            [subst p; unfold label_filter in Hf1; cbn in Hf1; inv Hf1; cbn in E2; inv E2; do 2 eexists; split; [reflexivity|]; split; [reflexivity|]; auto|].
+          exists s1; exists w1. split; [reflexivity|]. split; [reflexivity|].
+          destruct Hpf as [[Hsl HG]|[(tm & Hfs) Hg]]; cbn [fst snd] in *.
+          + subst fss. destruct (pair_selector sp tp p s w s1 w1 Hp Hf1 Hf2) as [Hp1 E].
+            split; [exact Hp1|]. eapply ev_trans; [exact Hev|]. eapply ev_mono; [exact HG|exact E].
+          + destruct (pair_nonselector sp tp p tm fss s w s1 w1 Hfs Hp (good_compat _ _ _ _ Hg Hev) Hf1 Hf2) as [Hp1 E].
+            split; [exact Hp1|]. rewrite E. exact Hev. }
+      destruct Hstep as (s1 & w1 & -> & -> & Hp1 & Hev1). apply (IH s1 w1 rs rw Hok' Hp1 Hev1 Hs Hw).
+  Qed.
+
+  Lemma pair_chain s0 G sp tp : forall ds s w s' w',
+    (forall d, In d ds -> dir_ok d) ->
+    (forall d, In d ds -> forall kv, In kv (sel_pairs_of_dir d) -> In kv G) ->
+    (forall d, In d ds -> forall e, In e (d_labels d) -> ld_selectors e = false -> good s0 G (ld_pairs e)) ->
+    pinv sp tp s w -> ev G s0 (sel_of s) ->
+    apply_chain nonstr default_tc ds s = Ok s' -> apply_chain nonstr default_tc ds w = Ok w' ->
+    pinv sp tp s' w'.
+  Proof.
+    induction ds as [|d t IH]; intros s w s' w' Hd HG Hg Hp Hev Hs Hw; cbn [apply_chain] in Hs, Hw.
+    - inv Hs. inv Hw. exact Hp.
+    - destruct (apply_dirs nonstr default_tc d [s]) as [ls| | |] eqn:E1; cbn [bind] in Hs; try discriminate.
+      destruct (apply_dirs nonstr default_tc d [w]) as [lw| | |] eqn:E2; cbn [bind] in Hw; try discriminate.
+      unfold apply_dirs in E1, E2.
+      destruct (label_transformers default_tc d) as [lts| | |] eqn:EL; cbn [bind] in E1, E2; try discriminate.
+      destruct (run_transformers nonstr lts [s]) as [rs1| | |] eqn:ER1; cbn [bind] in E1; try discriminate.
+      destruct (run_transformers nonstr lts [w]) as [rw1| | |] eqn:ER2; cbn [bind] in E2; try discriminate.
+      pose proof (label_transformers_kinds2 s0 G d lts (Hd d (or_introl eq_refl)) (HG d (or_introl eq_refl))
+                    (Hg d (or_introl eq_refl)) EL) as Hk.
+      destruct (pair_runs s0 G sp tp lts s w rs1 rw1 Hk Hp Hev ER1 ER2) as (s1 & w1 & -> & -> & Hp1 & Hev1).
+      cbn [tc_common_annotations default_tc] in E1, E2.
+      assert (Hstep : exists s2 w2, ls = [s2] /\ lw = [w2] /\ pinv sp tp s2 w2 /\ ev G s0 (sel_of s2)).
+      { destruct (run_single nonstr _ _ _ _ E1) as [[Hp0 ->]|(s2 & -> & Hf1)].
+        - rewrite Hp0 in E2. cbn in E2. inv E2. do 2 eexists. split; [reflexivity|]. split; [reflexivity|]. auto.
+        - destruct (run_single nonstr _ _ _ _ E2) as [[Hp0 _]|(w2 & -> & Hf2)];
+            [rewrite Hp0 in Hf1; unfold label_filter in Hf1; cbn in Hf1; inv Hf1; rewrite Hp0 in E2; cbn in E2; inv E2; do 2 eexists; split; [reflexivity|]; split; [reflexivity|]; auto|].
+          destruct (pair_annotations sp tp _ s1 w1 s2 w2 Hp1 Hf1 Hf2) as [Hp2 E].
+          exists s2; exists w2. split; [reflexivity|]. split; [reflexivity|]. split; [exact Hp2|]. rewrite E. exact Hev1. }
+      destruct Hstep as (s2 & w2 & -> & -> & Hp2 & Hev2).
+      apply (IH s2 w2 s' w'); auto.
+      + intros d' Hin. apply Hd. right; exact Hin.
+      + intros d' Hin. apply HG. right; exact Hin.
+      + intros d' Hin. apply Hg. right; exact Hin.
+  Qed.
+
+  (* Who selected whom before a chain still does after it: a selecting object s and a workload w that go through
+     the same chain of directives (any number of layers, keys may repeat). *)
+  Theorem selects_preserved_chain : forall (ds : list dirs) (s w s' w' : node) (sp tp : string),
+    (forall d, In d ds -> dir_ok d) ->
+    (forall d, In d ds -> forall e, In e (d_labels d) -> ld_selectors e = false ->
+                          good (sel_of s) (chain_sel_pairs ds) (ld_pairs e)) ->
+    sel_path_of s = Some sp -> tmpl_path_of w = Some tp ->
+    is_map w = true -> no_seq_along (path_splitter tp) w = true ->
+    has_exact (path_splitter sp) gen_common_labels_fs s = true ->
+    has_create (path_splitter tp) gen_common_labels_fs w = true ->
+    selects s w ->
+    apply_chain nonstr default_tc ds s = Ok s' -> apply_chain nonstr default_tc ds w = Ok w' ->
+    selects s' w'.
+  Proof.
+    intros ds s w s' w' sp tp Hd Hg Hsp Htp Hm Hn Hex Hcr Hsel Hs Hw.
+    destruct (pair_chain (sel_of s) (chain_sel_pairs ds) sp tp ds s w s' w' Hd) as (_ & _ & _ & _ & _ & _ & H); auto.
+    - intros d Hin kv Hkv. unfold chain_sel_pairs. apply in_flat_map. exists d. auto.
+    - repeat split; auto.
+    - apply ev_refl.
+  Qed.
+End Pair.
